@@ -26,6 +26,16 @@ def run(ctx, deep=False):
     for gen in (4, 5):
         total += frame_try.run_gen(ctx, gen, 800 if thorough else 100)
     ctx.count("whole-frames", total)
+    # several messages of varying size accepted while the link is down and flushed together (each is sized when accepted, encoded
+    # when flushed): every frame on the wire is the frame of its own message
+    import sockcheck
+    for gen in (4, 5):
+        items = []
+        for n_msgs in (2, 3, 5):
+            for start in (5, 12, 3):
+                sids = [start + 7 * i for i in range(n_msgs)] + [start + 1, start + 2]
+                items.append(("outage", [("net", "refuse"), ("open",), ("adv", 1)] + [("send", s_, "ok", "idem") for s_ in sids] + [("net", "accept"), ("adv", 24)]))
+        sockcheck.judge_family(ctx, "C03", items, ["c01a", "c01b"], gen=gen)
     ctx.assumptions += ["float arithmetic of the temperature conversions is bridged by the exhaustive comparison over all raw values, not proved",
                         "whole-frame path (header factory, wrappers, CRC, receive path) is covered by the frame differential (frame_try: real send path and real _read_one_message against the model's frameOf / parse; whole-frame round trip judged for well-formed messages)"]
 
@@ -36,4 +46,7 @@ def search(ctx):
 
 
 def replay(ctx, data):
+    if "script" in data:
+        import sockcheck
+        return sockcheck.replay(ctx, data)
     return codeccheck.replay_roundtrip(ctx, data)
